@@ -27,9 +27,11 @@ def table_mutants():
     return "\n".join(rows)
 def table_seeds(log):
     rows=["| seed | confirmed (suite passes, demo fails with / passes without) | checks run: exit and first signatures |","|---|---|---|"]
-    if not os.path.exists(log): return "(no seed log)"
+    logs=[x for x in log.split(',') if os.path.exists(x)]
+    if not logs: return "(no seed log)"
     got={}
-    for l in open(log):
+    import itertools
+    for l in itertools.chain.from_iterable(open(x) for x in logs):
         if not l.startswith('seed='): continue
         m=re.match(r"seed=\S*seeded/(C\d\d-\d+)/? (.*?) \| (.*)",l.strip())
         if not m: continue
